@@ -243,7 +243,8 @@ func c03isPath(src string) bool {
 
 func c03volumes() []c03case {
 	var out []c03case
-	sources := []string{"", "named", "./r", "../r", ".", "/abs", "~/h", `C:\w`, `\\.\pipe\p`}
+	// (also the shortest member of every path class: bare ~, .., /, ./ ; and volume names containing what paths start with)
+	sources := []string{"", "named", "./r", "../r", ".", "/abs", "~/h", `C:\w`, `\\.\pipe\p`, "~", "..", "/", "./", "na.me", "n~", "n-a_me"}
 	targets := []string{"/t", "/t/", "/t/../u"}
 	modes := []string{"ro", "rw", "z", "Z", "nocopy", "shared", "rslave", "rprivate"}
 	var modeSets [][]string
